@@ -18,6 +18,7 @@
    Connection-oriented sink: specs/OutputStreamSink.tla (whole frames per connection, connection abandoned after a failed or
    partial write; mutant M_ReconnectAfterFailedWrite rejected), replayed on the real gelf output with a stalled receiver.
    Transport (specs/OutputTransport.tla): endpoint lists with dead endpoints x gzip, mutant M_BodyBuiltOncePerAttempt rejected.
+   Elasticsearch action lines (specs/EsActionLine.tla): index_values of 1..3 entries over {@time, a, b}, mutant M_ActionLinePerEvent.
    Gelf field names (specs/GelfFieldName.tla): formatExtraField over ASCII / non-ASCII name alphabets, mutant M_NameBytesAsciiOnly.
 2. The cases are replayed into the REAL output plugins (elasticsearch, kafka, file, splunk, http, loki, gelf), each
    event carrying adversarial values in the routing/label fields; every captured body is parsed back in the sink's
@@ -232,6 +233,64 @@ def file_sink_concurrency(ctx, binary, recs):
                            "overlap actually achieved is measured (evidence: file_sink_concurrency) - with GOMAXPROCS=1 it is usually none")
 
 
+def es_action_lines(ctx, binary, recs, cases):
+    """specs/EsActionLine.tla on the real elasticsearch output: index_values of 1..3 entries over {@time, a, b}, batches whose
+    events vary in a and b independently, split_batch on and off; the sink compares every action line's index with the one
+    built from that document's own values."""
+    if len(cases) < 500:
+        raise vlib.Infra("EsActionLine exported only %d cases" % len(cases))
+    cases = sorted(cases, key=lambda c: json.dumps(c, sort_keys=True))
+    if ctx.tier == "quick" and len(cases) > 600:
+        cases = random.Random("%d/esindex" % ctx.seed).sample(cases, 600)
+    out = []
+    for c in cases:
+        for split in (False, True):
+            out.append({"n": len(out), "variant": ",".join(c["iv"]), "split": split, "pats": [[]], "fail": [False],
+                        "batches": [[{"id": i + 1, "kind": "regular", "size": 1, "val": (e["a"] - 1) * 2 + (e["b"] - 1)}
+                                     for i, e in enumerate(c["batch"])]]})
+    path = os.path.join(ctx.scratch, "c19_esindex_cases.ndjson")
+    outp = os.path.join(ctx.scratch, "c19_esindex_out.ndjson")
+    with open(path, "w") as f:
+        for c in out:
+            f.write(json.dumps(c) + "\n")
+    rc, txt = ctx.run_bin(binary, "^TestVerifC19EsIndex$", env={"VERIF_CASES": path, "VERIF_OUT": outp, "LOG_LEVEL": "error"}, timeout=1200)
+    if rc != 0:
+        if "panic:" in txt and "elasticsearch.go" in txt:
+            recs.append({"kind": "panic", "sink": "elasticsearch", "stage": "es_action_lines", "panic": txt[txt.index("panic:"):][:600]})
+            return
+        raise vlib.Infra("C19 es action lines harness failed rc=%s:\n%s" % (rc, txt[-3000:]))
+    results = {}
+    for line in open(outp):
+        r = json.loads(line)
+        results[r["n"]] = r
+    if len(results) != len(out):
+        raise vlib.Infra("C19 es action lines harness executed %d of %d cases" % (len(results), len(out)))
+    nviol = 0
+    for c in out:
+        r = results[c["n"]]
+        ids = [e["id"] for e in c["batches"][0]]
+        base = {"sink": "elasticsearch", "stage": "es_action_lines", "index_values": c["variant"], "split": c["split"],
+                "events_a_b": [[1 + e["val"] // 2, 1 + e["val"] % 2] for e in c["batches"][0]]}
+        got = []
+        for b in r["batches"]:
+            if not b["acked"]:
+                recs.append(dict(base, kind="hang"))
+            for q in b["reqs"]:
+                got += q["ids"]
+                for fr in (q.get("routing") or []):
+                    nviol += 1
+                    recs.append(dict(base, kind="routing", where="_index", id=fr["id"], text=fr["text"]))
+                for fr in (q.get("framing") or []):
+                    recs.append(dict(base, kind="framing", where=fr["where"], id=fr["id"], text=fr["text"]))
+        if got != ids:
+            recs.append(dict(base, kind="body_differs", want=ids, got=got))
+        ctx.evaluations += 1
+        ctx.traces_validated += 1
+    ctx.extra["es_action_lines"] = {"cases": len(out), "index_mismatches": nviol}
+    ctx.nontrivial.add(("es_action_lines", "index of two or more event fields, neighbours differing in a later field only"))
+    vlib.log("C19 es action lines: cases=%d index mismatches=%d" % (len(out), nviol))
+
+
 def gelf_names(ctx, binary, recs, cases):
     """specs/GelfFieldName.tla on the real gelf output: every exported name becomes a field name of an event that the plugin's
     own formatEvent turns into a GELF message."""
@@ -371,6 +430,16 @@ def run(ctx):
         if gm.ok or gm.kind != "invariant":
             raise vlib.Infra("spec mutant M_NameBytesAsciiOnly=FALSE is not rejected")
         mutants["M_NameBytesAsciiOnly"] = gm.violated
+        a = bg.tlc("EsActionLine", "EsActionLine_quick.cfg" if quick else "EsActionLine_thorough.cfg", deadlock=False, timeout=900,
+                   workers=4, name="EsActionLine: every action line from its own event's values of all listed fields")
+        if not a.ok:
+            raise vlib.Infra("EsActionLine should hold: %s\n%s" % (a.violated, a.out[-1500:]))
+        side_results["es_action_lines"] = a.printed
+        am = bg.tlc("EsActionLine", "EsActionLine_mut.cfg", deadlock=False, timeout=600, workers=2,
+                    overrides={"M_ActionLinePerEvent": "FALSE"}, name="mutant M_ActionLinePerEvent off")
+        if am.ok or am.violated != "RoutingOwn":
+            raise vlib.Infra("spec mutant M_ActionLinePerEvent=FALSE is not rejected by RoutingOwn")
+        mutants["M_ActionLinePerEvent"] = am.violated
         return mutants
     side_f = pool.submit(side_runs)
 
@@ -544,6 +613,8 @@ def run(ctx):
     ]
     if "file" in bins:
         file_sink_concurrency(ctx, bins["file"], recs)
+    if "elasticsearch" in bins:
+        es_action_lines(ctx, bins["elasticsearch"], recs, side_results.get("es_action_lines") or [])
     if "gelf" in bins:
         gelf_stream(ctx, bins["gelf"], recs)
         gelf_names(ctx, bins["gelf"], recs, side_results.get("gelf_names") or [])
